@@ -17,7 +17,7 @@ from ..core import META, Ctx, RuleResult, rule
 from ..dataflow import dataflow_of, MUTATING_METHODS
 from ..model import AnalysisError, Cls, Func, norm_stmt, parent
 from ..pattern import C, G, V, call, match, norm
-from ..terms import Term, alts, contains, ends_with_attrs, root_of, show, subterms
+from ..terms import Term, alts, contains, ends_with_attrs, ifexp_to_phi, root_of, show, subterms
 from ..util import calls_in, nodes_in
 
 P = "C06"
@@ -119,7 +119,7 @@ def c06_1(ctx: Ctx) -> RuleResult:
     res = RuleResult("C06.1", "LAYOUT", "each requested row carries the label of the (vector, realization) / (realization, perturbation) it holds, and returned rows are split by the same layout")
     X = ctx.X
     for f, c in builders(ctx):
-        t = X.at(f, c)
+        t = ifexp_to_phi(X.at(f, c))
         vars_t, ctx_t = t[2][0], t[2][1]
         # the context object
         cc = [a for a in alts(ctx_t) if a[0] == "call"]
@@ -261,7 +261,7 @@ def c06_2(ctx: Ctx) -> RuleResult:
     X = ctx.X
     for f, c in builders(ctx):
         t = X.at(f, c)
-        v = t[2][0]
+        v = ifexp_to_phi(t[2][0])
         ok = False
         for ph in [x for x in subterms(v) if x[0] == "phi"]:
             tr = [a for a in ph[1] if a[0] == "call" and a[1][0] == "attr" and a[1][2] == "from_optimizer" and ends_with_attrs(a[1][1], "variables")]
